@@ -1,1 +1,9 @@
 import XPathV.Theorems.C10
+#print axioms XPathV.Theorems.C10.prec_chain_ok
+#print axioms XPathV.Theorems.C10.stages_are_xpath_tiers
+#print axioms XPathV.Theorems.C10.star_not_name_char
+#print axioms XPathV.Theorems.C10.tier_loop_left_assoc
+#print axioms XPathV.Theorems.C10.tier_loop_stop
+#print axioms XPathV.Theorems.C10.unary_encoding
+#print axioms XPathV.Theorems.C10.dot_is_self_node
+#print axioms XPathV.Theorems.C10.slashslash_is_dos
